@@ -1029,6 +1029,9 @@ pub fn generate(name: &str, seed: u64, tier: &str) -> Vec<Vec<Value>> {
         "c15" => crate::wl_hash::wl_c15(seed, tier),
         "c16" => crate::wl_hash::wl_c16(seed, tier),
         "c17" => crate::wl_hash::wl_c17(seed, tier),
+        "c03" => crate::wl_pair::wl_c03(seed, tier),
+        "c11" => crate::wl_pair::wl_c11(seed, tier),
+        "c12" => crate::wl_pair::wl_c12(seed, tier),
         "c08" => wl_c08(seed, tier),
         "c09" => wl_c09(seed, tier),
         "c18" => wl_c18(seed, tier),
